@@ -19,17 +19,17 @@ func init() {
 var indentStrs = []string{"", " ", "  ", "\t", "    "}
 
 type fileCase struct {
-	json    bool
-	indent  bool
-	prefix  string
-	ind     string
-	raw     bool
-	maps    mxj.Maps
-	enc     [][]byte      // per-Map encoding
-	expect  []interface{} // what each document must read back as
-	file    []byte        // intended file content
-	ends    []int         // b_i: end offset of document i in file
-	name    string
+	json   bool
+	indent bool
+	prefix string
+	ind    string
+	raw    bool
+	maps   mxj.Maps
+	enc    [][]byte      // per-Map encoding
+	expect []interface{} // what each document must read back as
+	file   []byte        // intended file content
+	ends   []int         // b_i: end offset of document i in file
+	name   string
 }
 
 func (fc *fileCase) tag() string {
